@@ -12,7 +12,7 @@ PROPERTY = 'C09'
 LEVEL = 'proof'
 REQUIRED_THEOREMS = ['Properties.C09.exec_knots_valid', 'Properties.C09.knots_valid', 'Properties.C09.binSearch_spec', 'Properties.C09.spline_strictMonoOn',
                      'Properties.C09.spline_maps_endpoints', 'Properties.C09.spline_mapsTo_box',
-                     'Properties.C09.rq_executed_strictMonoOn', 'Properties.C09.tails_identity', 'Properties.C09.exec_linear_cdf_valid', 'Properties.C09.exec_unit_locs_valid', 'Properties.C09.rq_program_strictMonoOn', 'Properties.C09.rq_program_endpoints', 'Properties.C09.rq_program_mapsTo']
+                     'Properties.C09.rq_executed_strictMonoOn', 'Properties.C09.tails_identity', 'Properties.C09.exec_linear_cdf_valid', 'Properties.C09.exec_unit_locs_valid', 'Properties.C09.rq_program_strictMonoOn', 'Properties.C09.rq_program_endpoints', 'Properties.C09.rq_program_mapsTo', 'Properties.C09.rq_program_inverse_bijection']
 RULE = ("cases = (family, tails, K, parameter regime, box/tail bound, atom kind) with per-element parameter rows; "
         "atoms: every knot (independent torch recomputation), nextafter neighbours, end-points, tail junction +-1ulp, far tails, "
         "random interior; a case is non-trivial when the model output differs from the input (not the identity) and distinct by "
@@ -208,6 +208,29 @@ def oracle_config(ctx, fam, tails, K, regime, box, B, extra, gen, npts=64):
     close = dx <= 4 * torch.finfo(dtype).eps * (1 + grid[1:].abs())
     if (dy[close].abs() > t).any():
         ctx.fail('jump at a knot', case, match={'fam': fam, 'symptom': 'jump'}); return
+    # --- the other half of "bijection of the box": the inverse direction is an increasing map of [bottom, top] onto
+    # [left, right], and undoes the forward direction
+    tolx = (1e-4 if fam == 'cubic' else 1e-6) * (hi - lo)
+    cond = 1e-13 * (1 + abs(top) + abs(bot)) * torch.exp(-ld)
+    kind, xr, ldr = S.impl_call(fam, y.clamp(bot, top), fl, True, tails, box, B, extra=extra)
+    if kind != 'ok':
+        ctx.fail('inverse rejects forward images of in-domain points with %s' % kind, case, match={'fam': fam, 'symptom': 'inverse-raises'}); return
+    if not torch.isfinite(xr).all():
+        ctx.fail('non-finite inverse output inside the box', case, match={'fam': fam, 'symptom': 'inverse-non-finite'}); return
+    bad = (xr - grid).abs() > tolx + cond
+    if bad.any():
+        j = int(torch.argmax(((xr - grid).abs() - cond) * bad))
+        ctx.fail('inverse(forward(x)) != x: x=%r back=%r' % (grid[j].item(), xr[j].item()), dict(case, x=grid[j].item()), match={'fam': fam, 'symptom': 'inverse-roundtrip'}); return
+    ygrid = torch.linspace(bot, top, npts, dtype=dtype)
+    kind, xg, ldg = S.impl_call(fam, ygrid, [p.expand(npts, -1) for p in params], True, tails, box, B, extra=extra)
+    if kind != 'ok' or not torch.isfinite(xg).all():
+        ctx.fail('inverse fails on a grid of [bottom, top] (%s)' % kind, case, match={'fam': fam, 'symptom': 'inverse-raises'}); return
+    if ((xg[1:] - xg[:-1]) < -(tolx + cond.max())).any():
+        ctx.fail('inverse output decreases', case, match={'fam': fam, 'symptom': 'inverse-not-monotone'}); return
+    if (xg < lo - tolx).any() or (xg > hi + tolx).any():
+        ctx.fail('inverse output leaves the input interval: min=%r max=%r' % (xg.min().item(), xg.max().item()), case, match={'fam': fam, 'symptom': 'inverse-leaves-box'}); return
+    if abs(xg[0].item() - lo) > tolx + cond[0].item() or abs(xg[-1].item() - hi) > tolx + cond[-1].item():
+        ctx.fail('inverse end-points not mapped to end-points: g(bottom)=%r g(top)=%r' % (xg[0].item(), xg[-1].item()), case, match={'fam': fam, 'symptom': 'inverse-endpoints'}); return
     if tails:
         xt = torch.tensor([B * (1 + 1e-12) + 1e-300, -B * (1 + 1e-12), B + 1.0, -B - 2.5, 50.0 * B], dtype=dtype)
         xt = torch.where(xt.abs() <= B, torch.sign(xt) * torch.nextafter(torch.tensor(B, dtype=dtype), inf), xt)
